@@ -9,6 +9,7 @@ import (
 	"runtime/debug"
 	"sort"
 	"sync"
+	"sync/atomic"
 	"time"
 	"unsafe"
 
@@ -17,6 +18,36 @@ import (
 
 type Locker = sync.Locker
 
+// Passthrough-mode bookkeeping: the Go runtime answers an unlock of an unlocked mutex with a fatal
+// error that no recover() can catch, which would take the whole worker process down without a
+// verdict. A corrupted engine state (e.g. a latch released twice after foreign bytes were read as an
+// index node) becomes an ordinary panic instead, attributed to the engine frame that caused it.
+// Not in race builds: the atomics would add happens-before edges the engine does not have.
+func ptSet(p *int32) {
+	if !raceBuild {
+		atomic.StoreInt32(p, 1)
+	}
+}
+
+func ptClear(p *int32, msg string) {
+	if !raceBuild && !atomic.CompareAndSwapInt32(p, 1, 0) {
+		panic(msg)
+	}
+}
+
+func ptInc(p *int32) {
+	if !raceBuild {
+		atomic.AddInt32(p, 1)
+	}
+}
+
+func ptDec(p *int32, msg string) {
+	if !raceBuild && atomic.AddInt32(p, -1) < 0 {
+		atomic.AddInt32(p, 1)
+		panic(msg)
+	}
+}
+
 // ---------------------------------------------------------------- Mutex
 
 type Mutex struct {
@@ -24,6 +55,7 @@ type Mutex struct {
 	locked bool
 	owner  int32
 	dbg    []byte
+	ph     int32 // passthrough: held (1) or not; turns the runtime's unrecoverable "unlock of unlocked mutex" into a panic
 }
 
 // DebugOwners (diagnosis only): remember who locked a Mutex in passthrough mode and report it
@@ -48,9 +80,11 @@ func (m *Mutex) Lock() {
 	case simrt.ModePassthrough:
 		if DebugOwners {
 			m.debugLock()
+			ptSet(&m.ph)
 			return
 		}
 		m.real.Lock()
+		ptSet(&m.ph)
 		return
 	case simrt.ModeDying:
 		return
@@ -69,7 +103,11 @@ func (m *Mutex) Lock() {
 func (m *Mutex) TryLock() bool {
 	switch simrt.Mode() {
 	case simrt.ModePassthrough:
-		return m.real.TryLock()
+		ok := m.real.TryLock()
+		if ok {
+			ptSet(&m.ph)
+		}
+		return ok
 	case simrt.ModeDying:
 		return true
 	}
@@ -88,6 +126,7 @@ func (m *Mutex) TryLock() bool {
 func (m *Mutex) Unlock() {
 	switch simrt.Mode() {
 	case simrt.ModePassthrough:
+		ptClear(&m.ph, "sync: unlock of unlocked mutex")
 		m.real.Unlock()
 		return
 	case simrt.ModeDying:
@@ -108,6 +147,7 @@ type RWMutex struct {
 	writer   bool
 	readers  int32
 	wwaiting int32
+	prc, pw  int32 // passthrough: reader count / writer held (see Mutex.ph)
 }
 
 //go:norace
@@ -115,6 +155,7 @@ func (m *RWMutex) RLock() {
 	switch simrt.Mode() {
 	case simrt.ModePassthrough:
 		m.real.RLock()
+		ptInc(&m.prc)
 		return
 	case simrt.ModeDying:
 		return
@@ -133,7 +174,11 @@ func (m *RWMutex) RLock() {
 func (m *RWMutex) TryRLock() bool {
 	switch simrt.Mode() {
 	case simrt.ModePassthrough:
-		return m.real.TryRLock()
+		ok := m.real.TryRLock()
+		if ok {
+			ptInc(&m.prc)
+		}
+		return ok
 	case simrt.ModeDying:
 		return true
 	}
@@ -151,6 +196,7 @@ func (m *RWMutex) TryRLock() bool {
 func (m *RWMutex) RUnlock() {
 	switch simrt.Mode() {
 	case simrt.ModePassthrough:
+		ptDec(&m.prc, "sync: RUnlock of unlocked RWMutex")
 		m.real.RUnlock()
 		return
 	case simrt.ModeDying:
@@ -169,6 +215,7 @@ func (m *RWMutex) Lock() {
 	switch simrt.Mode() {
 	case simrt.ModePassthrough:
 		m.real.Lock()
+		ptSet(&m.pw)
 		return
 	case simrt.ModeDying:
 		return
@@ -188,7 +235,11 @@ func (m *RWMutex) Lock() {
 func (m *RWMutex) TryLock() bool {
 	switch simrt.Mode() {
 	case simrt.ModePassthrough:
-		return m.real.TryLock()
+		ok := m.real.TryLock()
+		if ok {
+			ptSet(&m.pw)
+		}
+		return ok
 	case simrt.ModeDying:
 		return true
 	}
@@ -206,6 +257,7 @@ func (m *RWMutex) TryLock() bool {
 func (m *RWMutex) Unlock() {
 	switch simrt.Mode() {
 	case simrt.ModePassthrough:
+		ptClear(&m.pw, "sync: Unlock of unlocked RWMutex")
 		m.real.Unlock()
 		return
 	case simrt.ModeDying:
